@@ -318,6 +318,13 @@ def oracle(ctx: Ctx, sc: dict, tr: dict) -> None:
                 # an invocation while the success is recorded on the object — is checked above per call
                 for key in [k for k in succ if k[0] == cyc["uid"]]:
                     succ.pop(key)
+            if p and p["reason"] == "noop":
+                # nothing to handle any more (the outstanding change was reverted to the last-handled
+                # state): the open cycle is over, its leftovers are purged (/repo d1b2dc4); a later
+                # change starts a new cycle in which the handlers legitimately run again
+                for key in [k for k in succ if k[0] == cyc["uid"]]:
+                    succ.pop(key)
+                last_reason.pop(cyc["uid"], None)
             if p and p["reason"] in KINDS:
                 last_reason[cyc["uid"]] = p["reason"]
             if not p or p.get("outcomes") is None:
